@@ -10,6 +10,17 @@ METHODS = {}      # (typetag, method) -> fn(ex, self, args, kwargs)
 ATTRS = {}        # (typetag, attr) -> fn(ex, self)
 
 
+_KNOWN = []
+
+
+def known_functions():
+    if not _KNOWN:
+        import os
+        with open(os.path.join(os.path.dirname(__file__), "known_functions.txt")) as fh:
+            _KNOWN.append({l.strip() for l in fh if l.strip()})
+    return _KNOWN[0]
+
+
 def _gen_result(fr):
     it = SeqIter(fr.yielded, 0)
     if getattr(fr, "gen_pool", None) is not None:
@@ -347,7 +358,12 @@ class Exec:
                 self.calls_seen.append((real_qual, "contract"))
                 return c(self, list(args), dict(kwargs))
             if real_qual not in self.inline:
-                raise Unsupported(f"call to {real_qual} which has neither contract nor inline permission")
+                # a function the contracts were not written for (a helper extracted by a later refactoring: not in the list of
+                # functions of the tree the contracts were made on) is executed as part of its caller - its real body, a few
+                # levels deep at most; every function that existed then needs a contract or an explicit inline permission
+                if real_qual in known_functions() or self.call_depth > 4:
+                    raise Unsupported(f"call to {real_qual} which has neither contract nor inline permission")
+                self.calls_seen.append((real_qual, "inlined (new helper)"))
         self.calls_seen.append((real_qual, "body"))
         return self.run_function(fdef, modqual, clsqual, list(args), dict(kwargs))
 
@@ -795,6 +811,10 @@ class Exec:
             return LibFn("builtins", name)
         if name in EXC_PARENTS:
             return ExcClass(name)
+        import builtins as _b
+        if hasattr(_b, name):
+            # a Python builtin without a model is outside the engine's reach, it is NOT an undefined name
+            raise Unsupported(f"builtin '{name}' is not modelled")
         raise SymRaise("NameError", name, lineno)
 
     def ev_Name(self, e, fr):
